@@ -52,6 +52,8 @@ var ufDecls = []ufDecl{
 	{"f64_le", "(declare-fun f64_le (F64 F64) Bool)"},
 	{"f64_eq", "(declare-fun f64_eq (F64 F64) Bool)"},
 	{"f64_neg", "(declare-fun f64_neg (F64) F64)"},
+	{"f64_isnan", "(declare-fun f64_isnan (F64) Bool)"},
+	{"f64_isinf", "(declare-fun f64_isinf (F64 Int) Bool)"},
 	{"f64_of_int", "(declare-fun f64_of_int (Int) F64)"},
 	{"int_of_f64", "(declare-fun int_of_f64 (F64) Int)"},
 	{"go_div", "(declare-fun go_div (Int Int) Int)"},
